@@ -155,9 +155,10 @@ def run_fn(ctx, driver, cases, impl, pred=None, compare=None, name=None, nontriv
 def conclude(ctx, ok, dis, search=None):
     """verdict logic of DESIGN §4.3 after a run: if an obligation or the correspondence broke and no concrete
     failing input is known, run `search()` (property predicate on more inputs), then report unproven."""
-    if (dis or not ok) and not ctx.violations:
+    from .core import unlisted_violations
+    if (dis or not ok) and not unlisted_violations(ctx):
         if search:
             search()
-        if not ctx.violations:
+        if not unlisted_violations(ctx):
             ctx.violation("model-tie", "unproven", {"broken": ctx.broken, "example": ctx.extra.get("disagreements", [])[:1]},
                           detail="; ".join(ctx.broken)[:500], kind="unproven", broken=ctx.broken)
